@@ -24,6 +24,7 @@ FILES = {
     "mytyping.py": "class Tx:\n    pass\n",
     "_priv.py": "class Hidden:\n    pass\n",
     "only_in_td.py": "class Rare:\n    pass\n",
+    "pkg/typing.py": "class Hint:\n    pass\n",  # a user module whose dotted name merely ends in `typing`
 }
 
 
@@ -31,6 +32,8 @@ def target_source(name):
     lines = ["class Own:", "    pass", "", "", "class Outer:", "    class Inner:", "        pass", "", ""]
     for i in range(NFUNC):
         lines += [f"def f{i}(a, b, c):", "    return None", "", ""]
+    for i in range(3):
+        lines += [f"def h{i}(a, b=None, c=None):", "    return None", "", ""]
     lines += ["def g0(a):", "    yield a", "", "", "class Kls:", "    def m(self, a, b):", "        return None", "",
               "    class Nest:", "        def nm(self, a):", "            return None", ""]
     return "\n".join(lines)
@@ -47,7 +50,7 @@ def write_fixture(d, tname):
 
 ATOM_SETS = {
     # distinct class names per import context (main stratum)
-    "main": ["int", "str", "NoneType", "uB", "uU", "puP", "fFoo", "bfQux", "Own", "OInner", "shp", "shpPart", "SIO", "txTx", "pu_utils", "pTop", "pvHidden"],
+    "main": ["int", "str", "NoneType", "uB", "uU", "puP", "fFoo", "bfQux", "Own", "OInner", "shp", "shpPart", "SIO", "txTx", "pu_utils", "pTop", "pvHidden", "ptHint"],
     # same class name imported from two modules (collision stratum)
     "samename": ["int", "uB", "puB", "fBaz", "bfBaz", "NoneType"],
 }
@@ -60,6 +63,7 @@ def setup_ns(tmod):
     import _priv
     import only_in_td
     import pkg
+    import pkg.typing
     import pkg.utils
     import shape
     import mytyping
@@ -68,7 +72,8 @@ def setup_ns(tmod):
     ns = gt.NS
     ns.update({"uB": utils.B, "uU": utils.U, "puP": pkg.utils.P, "puB": pkg.utils.B, "fFoo": foo.Foo, "fBaz": foo.Baz, "bfQux": barfoo.Qux,
                "bfBaz": barfoo.Baz, "Own": tmod.Own, "OInner": tmod.Outer.Inner, "shp": shape.shape, "shpPart": shape.shape.Part,
-               "SIO": _io.StringIO, "txTx": mytyping.Tx, "pu_utils": pkg.utils.utils, "pTop": pkg.Top, "pvHidden": _priv.Hidden, "oRare": only_in_td.Rare})
+               "SIO": _io.StringIO, "txTx": mytyping.Tx, "pu_utils": pkg.utils.utils, "pTop": pkg.Top, "pvHidden": _priv.Hidden, "oRare": only_in_td.Rare,
+               "ptHint": pkg.typing.Hint})
 
 
 def gen_sig_type(rng, stratum, with_td):
@@ -195,9 +200,21 @@ def _judge_text(res, tmod, text, handed, k, stratum, wit):
                 keys.setdefault("function-missing-from-stub", []).append(fname)
             continue
         params = {p[0]: p for p in info.params()}
+        try:
+            import inspect as _inspect
+
+            fobj = tmod
+            for part in fname.split("."):
+                fobj = getattr(fobj, part)
+            none_default = {n for n, prm in _inspect.signature(fobj).parameters.items() if prm.default is None}
+        except Exception:
+            none_default = set()
         for n, T in list(at.items()) + ([("return", rt_)] if rt_ is not None else []):
             res.count("annotations_judged")
             exp = RT.to_rt(T)
+            if n in none_default:
+                exp = RT.union([exp, RT.NONE])  # a None default makes the rendered annotation Optional[...]
+                res.count("none_default_positions_judged")
             for kd in RT.walk(exp):
                 if kd[0] in ("list", "set", "dict", "defaultdict", "tuple", "union", "td") and any(c[0] == "td" for c in RT.children(kd)):
                     res.seen("container_with_typeddict", kd[0])
@@ -299,6 +316,12 @@ def gen_build(rng, force=None):
                              gen_sig_type(rng, stratum, False) if rng.random() < 0.7 else None, None))
         if rng.random() < 0.5:
             spec.append(("Kls.m", {"a": gen_sig_type(rng, stratum, False), "b": gen_sig_type(rng, stratum, False)}, None, None))
+        for i in range(3):
+            # parameters whose default is None are rendered Optional[...]: also when another parameter has the very same type
+            if rng.random() < 0.35:
+                t1 = gen_sig_type(rng, stratum, False)
+                t2 = t1 if rng.random() < 0.6 else gen_sig_type(rng, stratum, False)
+                spec.append((f"h{i}", {"a": t1, "b": t2, **({"c": t1} if rng.random() < 0.3 else {})}, None, None))
         if rng.random() < 0.4:
             spec.append(("g0", {"a": gen_sig_type(rng, stratum, False)}, rng.choice([None, "int"]), gen_sig_type(rng, stratum, False)))
         if stratum == "main":
@@ -392,6 +415,7 @@ def run(ck):
     ck.need("annotations_judged", 5000)
     ck.need("two_module_builds", 100)
     ck.need("source_annotations_handed_to_renderer", 300)
+    ck.need("none_default_positions_judged", 300)
     ck.need("typeddict_builds_naming_checked", 500)
     ck.need("module_pairs", 15, "module pairs never co-occurring in one stub")
     ck.need("container_with_typeddict", 5, "container kind x contains-TypedDict cell never rendered")
